@@ -285,6 +285,31 @@ def eval_modifiers(st):
                                      {'function': 'def f' + space.show(shape), 'modifier': '%s(%r)' % (nm, sel), 'problems': bad}, {})
 
 
+def eval_starnames(st):
+    """embed / forwards where a star parameter of the outer signature is named like a named parameter of the inner one."""
+    outers = [x for x in space.universe(1, 'a', ('p',), ('k',)) if any(q[1] in (VA, VK) for q in x)]
+    inners = [x for x in space.universe(2, ('p', 'k', 'x')) if any(q[0] in ('p', 'k') for q in x)]
+    for o in outers:
+        for i in inners:
+            so, si = alg.sig_of(o), alg.sig_of(i)
+            for opn, fn in (('embed', lambda: S.embed(so, si)), ('forwards', lambda: S.forwards(so, si)),
+                            ('embed(use_varargs=False)', lambda: S.embed(so, si, use_varargs=False)),
+                            ('embed(use_varkwargs=False)', lambda: S.embed(so, si, use_varkwargs=False))):
+                st.inc('states')
+                try:
+                    res = fn()
+                except ValueError:
+                    continue
+                st.inc('transitions')
+                for kind, detail in problems(res):
+                    if kind == 'sources-duplicate':
+                        continue
+                    st.violation(kind, {'op': 'starnames', 'which': opn, 'sigs': [space.to_json(o), space.to_json(i)]},
+                                 dict(detail, operation='%s(%s, %s)' % (opn, space.show(o), space.show(i)), result=alg.sig_str(res),
+                                      sources=alg.src_show(res)), {'origin': 'starnames'})
+                st.seen('nontrivial', ('starnames', opn, shape_of(res)))
+
+
 def nary_operands(tier):
     u = space.universe(1, 'abc')
     first = [x for x in u if space.std_stars(x)]
@@ -341,6 +366,7 @@ def shard(tier, sh):
     if name == 'chains+modifiers':
         eval_chains(st)
         eval_modifiers(st)
+        eval_starnames(st)
         return st
     plist = dict(slices.all_slices('quick'))[name][i0:i1]
     batch, loaded = discovery.load(plist, uid_base=i0)
@@ -380,6 +406,8 @@ def replay(art):
             eval_prog(loaded[0], st)
         finally:
             batch.close()
+    elif c.get('op') == 'starnames':
+        eval_starnames(st)
     elif c.get('op') == 'nary':
         eval_nary(tuple(space.from_json(x) for x in c['sigs']), st)
     elif c.get('op') == 'chain':
